@@ -16,8 +16,11 @@ mod derive_codec;
 mod derive_seqarray;
 
 fn main() {
-    // panics are values for the harness; keep stderr quiet
-    std::panic::set_hook(Box::new(|_| {}));
+    // panics are values for the harness; keep stderr quiet (HARNESS_PANIC_MSG=1 prints them, used when a
+    // replay is written so that the report says whether the library or a harness assertion panicked)
+    if std::env::var_os("HARNESS_PANIC_MSG").is_none() {
+        std::panic::set_hook(Box::new(|_| {}));
+    }
     let args: Vec<String> = std::env::args().collect();
     match args.get(1).map(|s| s.as_str()) {
         Some("tables") => tables::dump(),
